@@ -303,3 +303,40 @@ Record export : Type := { ex_tgt : mtarget; ex_key : mkey; ex_exp : mexp }.
    beyond that gcc diagnoses "floating constant exceeds range of 'double'" and clang evaluates the constant to infinity *)
 Definition dbl_lit_limit : Z := 2 ^ 1024 - 2 ^ 970.
 Definition float_lit_overflows (n d : Z) : bool := (dbl_lit_limit <=? Z.abs n) || (dbl_lit_limit <=? Z.abs d).
+
+(* a decimal floating constant  [-]digits[.digits][e[+|-]digits]  (the forms Python's repr(float) produces for finite values) with
+   its exact rational value (numerator, denominator), not reduced *)
+Fixpoint read_digits_cnt (acc : N) (cnt : nat) (s : list N) : N * nat * list N :=
+  match s with
+  | c :: r => if is_digit c then read_digits_cnt (10 * acc + (c - 48))%N (S cnt) r else (acc, cnt, s)
+  | [] => (acc, cnt, [])
+  end.
+
+Definition parse_fdec (s : list N) : option (Z * Z) :=
+  let '(neg, s0) := match s with c :: r => if (c =? 45)%N then (true, r) else (false, s) | [] => (false, s) end in
+  let '(ip, n1, s1) := read_digits_cnt 0 0 s0 in
+  if Nat.eqb n1 0 then None else
+  let '(m, k, s2) := match s1 with
+                     | c :: r => if (c =? 46)%N then read_digits_cnt ip 0 r else (ip, O, s1)
+                     | [] => (ip, O, s1)
+                     end in
+  let after_dot_ok := match s1 with c :: _ => if (c =? 46)%N then negb (Nat.eqb k 0) else true | [] => true end in
+  if negb after_dot_ok then None else
+  let exp_part : option Z :=
+    match s2 with
+    | [] => Some 0
+    | c :: r =>
+        if (c =? 101)%N then
+          let '(eneg, r1) := match r with c1 :: r' => if (c1 =? 45)%N then (true, r') else if (c1 =? 43)%N then (false, r') else (false, r)
+                                         | [] => (false, r) end in
+          let '(e, ne, r2) := read_digits_cnt 0 0 r1 in
+          if Nat.eqb ne 0 then None else match r2 with [] => Some (if eneg then - Z.of_N e else Z.of_N e) | _ => None end
+        else None
+    end in
+  match exp_part with
+  | None => None
+  | Some e =>
+      let e' := e - Z.of_nat k in
+      let mz := if neg then - Z.of_N m else Z.of_N m in
+      Some (if 0 <=? e' then (mz * 10 ^ e', 1) else (mz, 10 ^ (- e')))
+  end.
